@@ -698,6 +698,47 @@ def rule_bitmask(ctx) -> RuleResult:
 
 
 # ---------------------------------------------------------------------------------------------
+# R-WHOLEPART (C03, C09, C02): a tree node reads EVERY block of its partition.
+# partial_reduce walks the partitions `p` of the blocks (one tuple of block numbers per axis).  The regular task nests all of them
+# (lol_tuples over the reduced axes).  Any expression that picks only the FIRST block of a per-axis partition (`j[0]`) -- for the kept axes
+# of the regular task, or for a pass-through alias -- is only sound where that partition has exactly one block, i.e. under `len(j) == 1`
+# (a comprehension filter or an enclosing test); "fewer than the fan-in" also holds for 2 or 3 blocks, whose tail is then never read.
+def rule_wholepart(ctx) -> RuleResult:
+    res = RuleResult("R-WHOLEPART", "first-block selections from a partition are made only where the partition has exactly one block", min_instances=1)
+    f = ctx.prog.func("dask_array_ops.partial_reduce")
+    pm = parents_map(f.node)
+    n = 0
+    for comp in [x for x in ast.walk(f.node) if isinstance(x, (ast.DictComp, ast.ListComp, ast.GeneratorExp, ast.SetComp))]:
+        g = comp.generators[0]
+        tnames = {x.id for x in ast.walk(g.target) if isinstance(x, ast.Name)}
+        elts = [comp.value] if isinstance(comp, ast.DictComp) else [comp.elt]
+        firsts = [x for e in elts for x in ast.walk(e) if isinstance(x, ast.Subscript) and isinstance(x.value, ast.Name) and x.value.id in tnames
+                  and isinstance(x.slice, ast.Constant) and x.slice.value == 0]
+        for x in firsts:
+            n += 1
+            v = x.value.id
+            want = f"len({v}) == 1"
+            filt = any(want in norm(i) for i in g.ifs)
+            outer = False
+            cur = comp
+            for a in ancestors(comp, pm):
+                if isinstance(a, ast.If) and want in norm(a.test) and any(cur is b or any(cur is y for y in ast.walk(b)) for b in a.body):
+                    outer = True
+                if a is f.node:
+                    break
+            ok = filt or outer
+            res.inst(f"partial_reduce: '{norm(comp)[:60]}' takes {norm(x)} under '{want}': {ok}", f"first|{norm(comp)[:40]}")
+            if not ok:
+                res.report(f"dask_array_ops.partial_reduce|first-block-of-a-longer-partition|{norm(comp)[:30]}", f.where(comp), f.qualname,
+                           f"'{norm(comp)[:70]}' keeps only the first block ({norm(x)}) of each per-axis partition without requiring that the partition has exactly one "
+                           "block: for a partition of 2 or 3 blocks the others are never read, fall out of the graph, and their members are silently missing from the result")
+    if n == 0:
+        res.notes.append("partial_reduce makes no first-block selection: rule not applicable")
+        res.min_instances = 0
+    return res
+
+
+# ---------------------------------------------------------------------------------------------
 # R-MESHINDEX (C09, C19): the block-key array is never subscripted with slices and open-mesh arrays mixed.
 # dask's `_key_array` is a NumPy object array.  NumPy moves the dimensions of advanced indices that are *separated by a slice* to the front of the
 # result, so an index (mesh, slice, mesh) returns the keys in another axis order than the chunks computed axis by axis next to it: IndexError
